@@ -431,7 +431,8 @@ func c16(c *core.Ctx, r *core.Report) {
 					role := ""
 					switch x := el.V.(type) {
 					case *ssa.Const:
-						if x.Value != nil && x.Value.Kind() == constant.String && constant.StringVal(x.Value) == stageConst {
+						// the fixed stage name stands for the stage only in a recorder that is not given a stage
+						if x.Value != nil && x.Value.Kind() == constant.String && constant.StringVal(x.Value) == stageConst && len(strParams) < 2 {
 							role = stageL
 						}
 					case *ssa.Parameter:
